@@ -60,6 +60,8 @@ type Scenario struct {
 	CrashPM     uint64 // amnesia crash chance per API call of an FAmnesia node
 	StallPM     uint64
 	EarlyTimer  bool
+	WOFlipIdent int   // identity+1 of a validator whose watch-only flag is set while it runs (0: none)
+	WOFlipAt    int64 // ... at this instant
 	FastIdent   int  // identity+1 of an amnesia validator whose inbound links are the fastest (0: none)
 	LongRestart bool // restarts may take up to 9 block times instead of 3
 	TriggerCut  bool // event-triggered faults: isolate a node / cut the factions at the moment the first (pre)commit of a height or the first change-view of a view is broadcast
@@ -528,6 +530,34 @@ func WatchScenario(t *Tape) *Scenario {
 	sc.TxMissing = t.Chance(SScen, 1, 2)
 	if t.Chance(SScen, 1, 3) {
 		sc.MaxTPB = sc.TPB * time.Duration(pick(t, SScen, 2, 3, 8, 1))
+	}
+	if fOf(n) >= 1 && sc.WOAfterRestart == nil && t.Chance(SScen, 1, 4) {
+		// a third way to become watch-only: the operator sets the flag while the validator is
+		// running (the library reads it through a callback at every decision), at any moment -
+		// also while the node waits for transactions with the dynamic block time extension on
+		for i := range sc.FlagWO {
+			sc.FlagWO[i] = false
+		}
+		w := int(t.Draw(SScen, uint64(n)))
+		sc.WOFlipIdent = 1 + w
+		sc.WOFlipAt = t.Range(SScen, 1, int64(sc.Heights)*8) * int64(sc.TPB) / 4
+		if len(sc.Epochs) == 1 && t.Chance(SScen, 2, 3) {
+			// make it the primary of one of the first heights
+			off := uint32(t.Draw(SScen, 3))
+			sc.Start = uint32(w) + uint32(n)*uint32(t.Range(SScen, 0, 3))
+			if sc.Start >= 1+off {
+				sc.Start -= 1 + off
+			} else {
+				sc.Start += uint32(n) - 1 - off
+			}
+			if sc.AMEV > 0 {
+				sc.AMEV = int64(sc.Start) + 1 + t.Range(SScen, 0, int64(sc.Heights))
+			}
+		}
+		if t.Chance(SScen, 2, 3) {
+			sc.MaxTPB = sc.TPB * time.Duration(pick(t, SScen, 3, 2, 8))
+			sc.TxRate = 1
+		}
 	}
 	// proposals that fail verification and verification callbacks that reject: the
 	// paths on which a node answers with a change-view request
